@@ -33,7 +33,8 @@ ASSUME = [
     "identifier strings are ASCII printable without whitespace; ids and labels of the theorems consist of word characters",
     "current revisions handed to the relative forms are full revision ids",
 ]
-RULE = ("8 fixed histories (design-time witnesses, label-propagation shapes) + seeded random histories (quick 90, thorough 1400) "
+RULE = ("8 fixed histories (design-time witnesses, label-propagation shapes) + a 13-deep linear history with offsets of "
+        "one to three digits (id+10, label@id+11, -12, +25 ...) + seeded random histories (quick 90, thorough 1400) "
         "of 1-5 revisions (thorough: up to 6) whose ids are strings of length 2-6 over {a,b,c} built to "
         "collide on prefixes (ids that are prefixes of other ids and of labels), 0-2 branch labels (sometimes colliding with an id "
         "or each other -> load error), random load order, 0-2 down revisions, occasional depends_on; for each history EVERY "
@@ -178,6 +179,12 @@ def queries_for(revs, rnd, full=True):
         for r in rel:
             qs.append(x + r)
     ids = [r["id"] for r in revs]
+    # offsets of more than one digit (over-long on these short histories: must raise), also behind a label
+    for x in ids[:3] + [l for r in revs for l in r["labels"]][:1]:
+        for r in ("+10", "-12", "+25", "-01", "+02"):
+            qs.append(x + r)
+            if ids:
+                qs.append(x + "@" + ids[-1] + r)
     labs = [l for r in revs for l in r["labels"]]
     for x in labs + ids[:2]:
         for y in ids + ["head", "base"]:
@@ -195,7 +202,7 @@ def queries_for(revs, rnd, full=True):
 def rel_queries(revs):
     names = names_of(revs)
     rel = ["+1", "-1", "+2", "-2", "+3"]
-    return rel + [x + "@" + r for x in names for r in rel[:4]]
+    return rel + ["+10", "-12", "+25", "+01"] + [x + "@" + r for x in names for r in rel[:4] + ["+10", "-10"]]
 
 
 DGABS = re.compile(r"^[^@+-]+@[^@+-]+$")
@@ -256,10 +263,39 @@ FIXED = [
 ]
 
 
+def deep_history():
+    """a linear history of 13 revisions r00a <- r01a <- ... <- r12a (label deep on r01a) next to a short second root:
+    the only place where an offset of two digits can resolve (r00a+10, deep@r01a+11, -12 from the head, +13 from base)"""
+    revs = [{"id": "r%02da" % k, "down": ["r%02da" % (k - 1)] if k else [], "deps": [], "labels": ["deep"] if k == 1 else []}
+            for k in range(13)]
+    revs.append({"id": "s00b", "down": [], "deps": ["r02a"], "labels": ["side"]})
+    return revs
+
+
+def deep_cases():
+    revs = deep_history()
+    offs = [1, 2, 9, 10, 11, 12, 13, 14, 25, 100]
+    qs = []
+    for x in ("r00a", "r01a", "r02a", "r11a", "r12a", "r0", "r1", "deep", "side", "head", "base"):
+        for k in offs:
+            qs += ["%s+%d" % (x, k), "%s-%d" % (x, k), "%s+%02d" % (x, k)]
+    for lab in ("deep", "side", "r05a"):
+        for x in ("r00a", "r02a", "r12a", "head", "base"):
+            for k in (1, 10, 11, 12, 13):
+                qs += ["%s@%s+%d" % (lab, x, k), "%s@%s-%d" % (lab, x, k)]
+    yield from batches(revs, [], qs)
+    rq = ["+%d" % k for k in offs] + ["-%d" % k for k in offs] + \
+         ["%s@+%d" % (lab, k) for lab in ("deep", "side", "r03a") for k in offs] + \
+         ["%s@-%d" % (lab, k) for lab in ("deep", "side") for k in (1, 10, 12, 13)]
+    for cur in ([], ["r00a"], ["r02a"], ["r12a"], ["s00b"], ["r05a", "s00b"]):
+        yield from batches(revs, cur, rq)
+
+
 def generate(tier, seed):
     rnd = random.Random(seed * 7919 + 16)
     for revs in FIXED:
         yield from cases_for(revs, rnd)
+    yield from deep_cases()
     ngraphs = 90 if tier == "quick" else 1400
     for k in range(ngraphs):
         nmax = 5 if tier == "quick" or k % 4 else 6
